@@ -151,7 +151,7 @@ var (
 	xlogCount = map[string]int{}
 	xlogOps   = map[string]bool{"rct_fwd": true, "rle_encode": true, "dwt_fwd1d": true, "dwt_inv1d": true, "mq_encode": true,
 		"rle_decode": true, "jls_encode": true, "jlsn_encode": true, "jll_encode": true, "sv1_encode": true,
-		"dct_fdct": true, "dct_fdct12": true, "dct_idct": true, "dct_quant8": true, "dct_quant12": true}
+		"dct_fdct": true, "dct_fdct12": true, "dct_idct": true, "dct_quant8": true, "dct_quant12": true, "hts_decode": true}
 )
 
 // xlogCap is the per-operation sample size (VERIF_XLOG_CAP, default 60).
